@@ -44,9 +44,25 @@ def generate(rng, tier):
         sk = 'none'
         sigma = None
         if method in ('cosine_cov', 'corr_cov'):
-            sk = rng.choice(['none', 'vector', 'matrix', 'constvector'])
+            sk = rng.choice(['none', 'vector', 'matrix', 'constvector', 'toeplitz', 'constdiag', 'diagmatrix'])
             if sk == 'vector':
                 sigma = [rng.choice([1, 2, 3, 4, 6]) for _ in range(nc)]
+            elif sk == 'toeplitz':
+                # constant diagonal, decaying off-diagonals (AR(1) pattern covariance): seeded change C03-m6
+                d = rng.choice([1, 2])
+                sigma = [[d * 0.5 ** abs(i - j) for j in range(nc)] for i in range(nc)]
+            elif sk == 'constdiag':
+                # constant diagonal with arbitrary small off-diagonals (diagonally dominant, hence positive definite)
+                sigma = [[0.0] * nc for _ in range(nc)]
+                for i in range(nc):
+                    for j in range(i + 1, nc):
+                        sigma[i][j] = sigma[j][i] = rng.choice([-2, -1, 0, 1, 2, 3]) / 8
+                dd = rng.choice([2, 3])
+                for i in range(nc):
+                    sigma[i][i] = float(dd)
+            elif sk == 'diagmatrix':
+                dv = [rng.choice([1, 2, 3, 4, 6]) for _ in range(nc)]
+                sigma = [[float(dv[i]) if i == j else 0.0 for j in range(nc)] for i in range(nc)]
             elif sk == 'constvector':
                 sigma = [rng.choice([1, 2, 3])] * nc
             elif sk == 'matrix':
